@@ -1,7 +1,777 @@
-//! C02 harness module (not implemented yet).
+//! C02: a cheating or corrupted random-VOLE reply is caught up to the guessing bound (both variants).
+//!
+//! Against the REAL receivers (rvole::RVOLEReceiver::process, rvole_ot_variant::RVOLEReceiver::process):
+//!  * the honest message is accepted;
+//!  * fault enumeration of the round-two message: single-bit flips in every field, byte and field
+//!    substitutions, row swaps, cross-session and cross-run splices (thorough: EVERY bit of the message of
+//!    the OT-extension variant, a stride for the base-OT variant).  Oracle: Err, or the relation
+//!    c + d = a*b (with the honest c) is intact; never a panic;
+//!  * a calibrated adversarial sender implemented here with merlin/k256 (input replaced at chosen gadget
+//!    positions, message re-derived self-consistently under guesses of beta there).  Oracle: accepted
+//!    iff every guess is right (whenever theta'.Delta_j != 0), accepted shares are exactly
+//!    d + sum_j g_j Delta_j (so positions with a zero bit leave them unaffected).
+//! Against the extracted model (coq/Model/Rvole.v): on a sample of the probes the model's verdict (and
+//! shares) must equal the real one, and the model's `adv_sender` must produce byte-identical messages.
+//! beta is read from the receiver state bytes (offset 32 of bytemuck::bytes_of(state)).
+use crate::c01::*;
+use crate::oracle::*;
 use crate::util::*;
+use k256::Scalar;
+use merlin::Transcript;
+use rand::{Rng, RngCore};
+use sl_oblivious::constants::{
+    RANDOM_VOLE_BASE_OT, RANDOM_VOLE_GADGET_VECTOR_LABEL, RANDOM_VOLE_MU_LABEL, RANDOM_VOLE_THETA_LABEL, SOFT_SPOKEN_LABEL,
+    SOFT_SPOKEN_RANDOMIZE_LABEL,
+};
+use sl_oblivious::endemic_ot::{EndemicOTMsg1, EndemicOTMsg2, EndemicOTReceiver, EndemicOTSender};
+use sl_oblivious::rvole;
+use sl_oblivious::rvole_ot_variant as rvot;
+use sl_oblivious::soft_spoken::{Round1Output, SoftSpokenOTSender};
+use sl_oblivious::verif_hooks::sender_output_keys;
+use std::panic::{catch_unwind, AssertUnwindSafe};
 
-pub fn run(_kv: &Args) -> i32 {
-    eprintln!("c02: not implemented");
-    2
+type Rows = Vec<[[u8; 32]; 3]>;
+
+// ------------------------------------------------------------------------------------------------
+// independent computations (merlin + k256), used by the adversary and the share predictions
+
+pub fn gadget_vec(sid: &[u8]) -> Vec<Scalar> {
+    let mut t = Transcript::new(&RANDOM_VOLE_GADGET_VECTOR_LABEL);
+    t.append_message(b"session-id", sid);
+    (0..XI)
+        .map(|i| {
+            t.append_u64(b"index", i as u64);
+            let mut r = [0u8; 32];
+            t.challenge_bytes(b"next value", &mut r);
+            reduce32(&r)
+        })
+        .collect()
+}
+
+fn thetas_of(sid: &[u8], a_tilde: &[u8]) -> [Scalar; 2] {
+    let mut t = Transcript::new(&RANDOM_VOLE_THETA_LABEL);
+    t.append_message(b"session-id", sid);
+    for j in 0..XI {
+        t.append_u64(b"row of a tilde", j as u64);
+        for i in 0..W {
+            t.append_message(b"", &a_tilde[(j * W + i) * 32..(j * W + i + 1) * 32]);
+        }
+    }
+    let mut th = [Scalar::ZERO; 2];
+    for (i, th_i) in th.iter_mut().enumerate() {
+        t.append_u64(b"theta k", 0);
+        t.append_u64(b"theta i", i as u64);
+        let mut d = [0u8; 32];
+        t.challenge_bytes(b"theta", &mut d);
+        *th_i = reduce32(&d);
+    }
+    th
+}
+
+/// rows of v from base-OT keys (rvole_ot_variant.rs re-hashing)
+fn rows_of_keys(sid: &[u8], keys: &[[u8; 32]]) -> Rows {
+    (0..XI)
+        .map(|j| {
+            let mut t = Transcript::new(&SOFT_SPOKEN_LABEL);
+            t.append_message(b"session-id", sid);
+            t.append_u64(b"index", j as u64);
+            t.append_message(&SOFT_SPOKEN_RANDOMIZE_LABEL, &keys[j]);
+            let mut row = [[0u8; 32]; 3];
+            for k in row.iter_mut() {
+                t.challenge_bytes(b"", k);
+            }
+            row
+        })
+        .collect()
+}
+
+#[derive(Clone)]
+pub struct Dev {
+    pub j: usize,
+    pub a: [Scalar; 2],
+    pub g: bool,
+}
+fn spec_arg(spec: &[Dev]) -> String {
+    if spec.is_empty() {
+        return "-".into();
+    }
+    spec.iter().map(|d| format!("{}/{}/{}", d.j, scalars(&d.a), d.g as u8)).collect::<Vec<_>>().join(";")
+}
+
+/// The calibrated adversarial sender (a_tilde, eta, mu_hash bytes) and its fresh theta'.
+fn adversary(sid: &[u8], v0: &Rows, v1: &Rows, a: &[Scalar; 2], eta_tape: &[u8], spec: &[Dev]) -> (Vec<u8>, [Scalar; 2]) {
+    let mut tr = TapeRng { tape: eta_tape.to_vec(), pos: 0 };
+    let eta0 = Scalar::generate_biased(&mut tr);
+    let lookup = |j: usize| spec.iter().find(|d| d.j == j);
+    let mut msg = vec![0u8; MSG_BYTES];
+    for j in 0..XI {
+        let inp = match lookup(j) {
+            Some(d) => d.a,
+            None => *a,
+        };
+        for i in 0..W {
+            let e = if i < 2 { inp[i] } else { eta0 };
+            let v = reduce32(&v0[j][i]) - reduce32(&v1[j][i]) + e;
+            msg[(j * W + i) * 32..(j * W + i + 1) * 32].copy_from_slice(&v.to_bytes());
+        }
+    }
+    let th = thetas_of(sid, &msg[..AT_BYTES]);
+    let eta = eta0 + th[0] * a[0] + th[1] * a[1];
+    msg[ETA_OFF..ETA_OFF + 32].copy_from_slice(&eta.to_bytes());
+    let mut t = Transcript::new(&RANDOM_VOLE_MU_LABEL);
+    t.append_message(b"session-id", sid);
+    for j in 0..XI {
+        let mut v = reduce32(&v0[j][2]) + th[0] * reduce32(&v0[j][0]) + th[1] * reduce32(&v0[j][1]);
+        if let Some(d) = lookup(j) {
+            if d.g {
+                v += th[0] * (d.a[0] - a[0]) + th[1] * (d.a[1] - a[1]);
+            }
+        }
+        t.append_message(b"chosen", &v.to_bytes());
+    }
+    t.challenge_bytes(b"mu-hash", &mut msg[MU_OFF..]);
+    (msg, th)
+}
+
+// ------------------------------------------------------------------------------------------------
+// a session of either variant, seen through the same interface
+
+pub enum Sess {
+    Ext(ExtSession),
+    Ot(Box<OtSession>, Box<EndemicOTReceiver>, Box<EndemicOTReceiver>),
+}
+
+fn dup_eot(r: &EndemicOTReceiver) -> Box<EndemicOTReceiver> {
+    // EndemicOTReceiver is plain data (choice bits + 256 scalars) without a Drop impl but it is not Clone;
+    // `process` consumes it, so every probe gets a bitwise copy of the state produced by the one real `new`.
+    unsafe { Box::new(std::ptr::read(r)) }
+}
+
+impl Sess {
+    pub fn variant(&self) -> &'static str {
+        match self {
+            Sess::Ext(_) => "ext",
+            Sess::Ot(..) => "ot",
+        }
+    }
+    pub fn sid(&self) -> [u8; 32] {
+        match self {
+            Sess::Ext(s) => s.sid,
+            Sess::Ot(s, ..) => s.sid,
+        }
+    }
+    pub fn a(&self) -> [Scalar; 2] {
+        match self {
+            Sess::Ext(s) => s.a,
+            Sess::Ot(s, ..) => s.a,
+        }
+    }
+    pub fn b(&self) -> Scalar {
+        match self {
+            Sess::Ext(s) => s.b,
+            Sess::Ot(s, ..) => s.b,
+        }
+    }
+    pub fn eta_tape(&self) -> Vec<u8> {
+        match self {
+            Sess::Ext(s) => s.eta_tape.clone(),
+            Sess::Ot(s, ..) => s.eta_tape.clone(),
+        }
+    }
+    /// the receiver's choice bits, read from the plain-old-data receiver state (offset 32)
+    pub fn beta(&self) -> Vec<u8> {
+        match self {
+            Sess::Ext(s) => bytemuck::bytes_of(&*s.state)[32..96].to_vec(),
+            Sess::Ot(s, ..) => bytemuck::bytes_of(&*s.state)[32..96].to_vec(),
+        }
+    }
+    pub fn honest(&self) -> (Vec<u8>, [Scalar; 2]) {
+        match self {
+            Sess::Ext(s) => s.send.clone().expect("honest sender"),
+            Sess::Ot(s, ..) => s.send.clone().expect("honest sender"),
+        }
+    }
+    /// offset of a_tilde inside the message (the base-OT variant carries the two base-OT replies first)
+    pub fn off(&self) -> usize {
+        match self {
+            Sess::Ext(_) => 0,
+            Sess::Ot(..) => 2 * EOT_BYTES,
+        }
+    }
+    pub fn describe(&self) -> String {
+        match self {
+            Sess::Ext(s) => s.describe(),
+            Sess::Ot(s, ..) => s.describe(),
+        }
+    }
+    pub fn real_recv(&self, msg: &[u8]) -> Result<[Scalar; 2], String> {
+        match self {
+            Sess::Ext(s) => ext_real_recv(&s.state, msg),
+            Sess::Ot(s, ra, rb) => {
+                let m: Box<rvot::RVOLEMsg2> = Box::new(bytemuck::pod_read_unaligned(msg));
+                let (ra, rb) = (dup_eot(ra), dup_eot(rb));
+                match catch_unwind(AssertUnwindSafe(|| s.state.process(&m, ra, rb))) {
+                    Ok(Ok(d)) => Ok(d),
+                    Ok(Err(e)) => Err(if e == "Decode error" { "err2".into() } else { "err1".into() }),
+                    Err(_) => Err("panic".into()),
+                }
+            }
+        }
+    }
+    /// register the model's receiver state for this session under `id`
+    pub fn model_new(&self, m: &mut Model, id: &str) -> Result<(), String> {
+        match self {
+            Sess::Ext(s) => model_ext_new(m, id, s).map(|_| ()),
+            Sess::Ot(s, ..) => model_ot_new(m, id, s).map(|_| ()),
+        }
+    }
+    pub fn model_recv(&self, m: &mut Model, id: &str, msg: &[u8]) -> Result<String, String> {
+        match self {
+            Sess::Ext(_) => model_recv(m, "c01.recv", &[id.to_string(), hx(msg)]),
+            Sess::Ot(..) => model_recv(m, "c01.ot_recv", &ot_recv_args(id, msg)),
+        }
+    }
+    /// the sender's OT-layer output (v_0, v_1) obtained from the real OT layer
+    pub fn sender_rows(&self) -> (Rows, Rows) {
+        match self {
+            Sess::Ext(s) => {
+                let r1: Box<Round1Output> = Box::new(bytemuck::pod_read_unaligned(&s.round1));
+                let so = SoftSpokenOTSender::process(&s.sid, &s.rseed, &r1).expect("honest round-one message");
+                (so.v_0.to_vec(), so.v_1.to_vec())
+            }
+            Sess::Ot(s, ..) => {
+                let mut t = Transcript::new(&RANDOM_VOLE_BASE_OT);
+                t.append_message(b"session-id", &s.sid);
+                let mut sa = [0u8; 32];
+                let mut sb = [0u8; 32];
+                t.challenge_bytes(b"session-id-a", &mut sa);
+                t.challenge_bytes(b"session-id-b", &mut sb);
+                let mut r = rng(s.seed, &s.send_stream());
+                let mut m1a = EndemicOTMsg1::default();
+                let mut m1b = EndemicOTMsg1::default();
+                bytemuck::bytes_of_mut(&mut m1a).copy_from_slice(&s.msg1[..EOT_BYTES]);
+                bytemuck::bytes_of_mut(&mut m1b).copy_from_slice(&s.msg1[EOT_BYTES..]);
+                let mut m2 = EndemicOTMsg2::default();
+                let oa = EndemicOTSender::process(&sa, &m1a, &mut m2, &mut r).expect("base OT a");
+                let ob = EndemicOTSender::process(&sb, &m1b, &mut m2, &mut r).expect("base OT b");
+                let mut k0 = vec![];
+                let mut k1 = vec![];
+                for k in sender_output_keys(&oa).iter().chain(sender_output_keys(&ob).iter()) {
+                    k0.push(k[0]);
+                    k1.push(k[1]);
+                }
+                (rows_of_keys(&s.sid, &k0), rows_of_keys(&s.sid, &k1))
+            }
+        }
+    }
+    /// the model's adv_sender on top of the model's OT layer: whole round-two message bytes
+    pub fn model_adv(&self, m: &mut Model, spec: &[Dev]) -> Result<Vec<u8>, String> {
+        match self {
+            Sess::Ext(s) => {
+                let r = m.call("c01.adv", &[hx(&s.sid), hx(&s.rseed.random_choices), hx(bytemuck::bytes_of(&s.rseed.otp_dec_keys)),
+                    scalars(&s.a), hx(&s.round1), hx(&s.eta_tape), spec_arg(spec)])?;
+                if r.first().map(|x| x.as_str()) == Some("ok") && r.len() == 2 { Ok(unhx(&r[1])) } else { Err(format!("c01.adv: {:?}", r.first())) }
+            }
+            Sess::Ot(s, ..) => {
+                let r = m.call("c01.ot_adv", &[hx(&s.sid), scalars(&s.a), hx(&s.msg1[..EOT_BYTES]), hx(&s.msg1[EOT_BYTES..]),
+                    scalars(&s.tbs_a), scalars(&s.tbs_b), hx(&s.eta_tape), spec_arg(spec)])?;
+                if r.first().map(|x| x.as_str()) == Some("ok") && r.len() == 4 {
+                    let mut v = unhx(&r[1]);
+                    v.extend_from_slice(&unhx(&r[2]));
+                    v.extend_from_slice(&unhx(&r[3]));
+                    Ok(v)
+                } else {
+                    Err(format!("c01.ot_adv: {:?}", r.first()))
+                }
+            }
+        }
+    }
+}
+
+fn ext_sess(seed: u64, tag: &str, sid: [u8; 32], seeds_stream: &str, a_kind: usize) -> Sess {
+    let mut r = rng(seed, &format!("c02-ext-{tag}"));
+    let (a0, _) = input_scalar(a_kind, &mut r);
+    let (a1, _) = input_scalar(4, &mut r);
+    let mut new_tape = vec![0u8; 80];
+    r.fill_bytes(&mut new_tape);
+    let mut eta_tape = vec![0u8; 64];
+    r.fill_bytes(&mut eta_tape);
+    Sess::Ext(ext_session(&format!("c02-{tag}"), sid, make_seeds(seed, seeds_stream, false), vec![0u8; R1_BYTES], new_tape, [a0, a1], eta_tape))
+}
+fn ot_sess(seed: u64, tag: &str, sid: [u8; 32], a_kind: usize) -> Sess {
+    let mut r = rng(seed, &format!("c02-ot-{tag}"));
+    let (a0, _) = input_scalar(a_kind, &mut r);
+    let (a1, _) = input_scalar(4, &mut r);
+    let s = ot_session(seed, &format!("c02-{tag}"), sid, [a0, a1]);
+    let (_, ra, rb, _, _) = s.real_new();
+    Sess::Ot(Box::new(s), ra, rb)
+}
+
+// ------------------------------------------------------------------------------------------------
+// probes
+
+pub struct Probe {
+    pub kind: String,
+    pub what: String,
+    pub msg: Vec<u8>,
+}
+
+fn field_bit_flips(s: &Sess, r: &mut impl RngCore, per_field: usize) -> Vec<Probe> {
+    let (msg, _) = s.honest();
+    let off = s.off();
+    let mut v = vec![];
+    let fields: [(&str, usize, usize); 3] = [("a_tilde", off, AT_BYTES), ("eta", off + ETA_OFF, 32), ("mu_hash", off + MU_OFF, 64)];
+    for (name, start, len) in fields {
+        for _ in 0..per_field {
+            let bitpos = (r.next_u64() as usize) % (len * 8);
+            let mut m = msg.clone();
+            m[start + bitpos / 8] ^= 1 << (bitpos % 8);
+            v.push(Probe { kind: format!("bit-{name}"), what: format!("bit {bitpos} of {name}"), msg: m });
+        }
+    }
+    if off > 0 {
+        // the embedded base-OT replies
+        for _ in 0..per_field {
+            let bitpos = (r.next_u64() as usize) % (off * 8);
+            let mut m = msg.clone();
+            m[bitpos / 8] ^= 1 << (bitpos % 8);
+            v.push(Probe { kind: "bit-ot-reply".into(), what: format!("bit {bitpos} of the base-OT replies"), msg: m });
+        }
+    }
+    v
+}
+
+fn substitutions(s: &Sess, other_session: &Sess, other_run: &Sess, r: &mut impl RngCore) -> Vec<Probe> {
+    let (msg, _) = s.honest();
+    let off = s.off();
+    let beta = s.beta();
+    let mut v = vec![];
+    let mut push = |kind: &str, what: String, m: Vec<u8>| v.push(Probe { kind: kind.into(), what, msg: m });
+    // bytes
+    for k in 0..12 {
+        let pos = off + (r.next_u64() as usize) % MSG_BYTES;
+        let mut m = msg.clone();
+        let nv = match k % 3 { 0 => 0u8, 1 => 0xff, _ => r.next_u32() as u8 };
+        if m[pos] == nv { m[pos] ^= 0x55; } else { m[pos] = nv; }
+        push("byte", format!("byte {pos} overwritten"), m);
+    }
+    // rows of a_tilde: swap two rows; swap the two batch entries of a row; overwrite a row whose bit is 0 / 1
+    let j1 = (r.next_u32() as usize) % XI;
+    let j2 = (j1 + 1 + (r.next_u32() as usize) % (XI - 1)) % XI;
+    let mut m = msg.clone();
+    for k in 0..96 { m.swap(off + j1 * 96 + k, off + j2 * 96 + k); }
+    push("row-swap", format!("a_tilde rows {j1} and {j2} swapped"), m);
+    let mut m = msg.clone();
+    for k in 0..32 { m.swap(off + (XI - 1) * 96 + k, off + (XI - 1) * 96 + 32 + k); }
+    push("entry-swap", "a_tilde[511][0] and a_tilde[511][1] swapped".into(), m);
+    for want in [false, true] {
+        if let Some(j) = (0..XI).rev().find(|j| bit(&beta, *j) == want) {
+            let mut m = msg.clone();
+            r.fill_bytes(&mut m[off + j * 96..off + j * 96 + 96]);
+            push(if want { "row-overwrite-bit1" } else { "row-overwrite-bit0" }, format!("a_tilde row {j} (beta_j = {}) overwritten with random bytes", want as u8), m);
+        }
+    }
+    // fields
+    let mut m = msg.clone();
+    m[off + ETA_OFF..off + ETA_OFF + 32].fill(0);
+    push("field-eta-zero", "eta := 0".into(), m);
+    let mut m = msg.clone();
+    m[off + MU_OFF..].fill(0);
+    push("field-mu-zero", "mu_hash := 0".into(), m);
+    let mut m = msg.clone();
+    m[off..off + AT_BYTES].fill(0);
+    push("field-atilde-zero", "a_tilde := 0".into(), m);
+    let mut m = msg.clone();
+    let (e, mu) = (m[off + ETA_OFF..off + ETA_OFF + 32].to_vec(), m[off + MU_OFF..off + MU_OFF + 32].to_vec());
+    m[off + ETA_OFF..off + ETA_OFF + 32].copy_from_slice(&mu);
+    m[off + MU_OFF..off + MU_OFF + 32].copy_from_slice(&e);
+    push("field-swap-eta-mu", "eta swapped with the first half of mu_hash".into(), m);
+    // splices from another session (different session id) and another run (same session id, other tapes/inputs)
+    for (tag, o) in [("cross-session", other_session), ("cross-run", other_run)] {
+        let (om, _) = o.honest();
+        push(&format!("{tag}-whole"), format!("whole message of the {tag} sender"), om.clone());
+        for (name, start, len) in [("a_tilde", off, AT_BYTES), ("eta", off + ETA_OFF, 32), ("mu_hash", off + MU_OFF, 64)] {
+            let mut m = msg.clone();
+            m[start..start + len].copy_from_slice(&om[start..start + len]);
+            push(&format!("{tag}-{name}"), format!("{name} spliced from the {tag} message"), m);
+        }
+        let mut m = om.clone();
+        m[off + MU_OFF..].copy_from_slice(&msg[off + MU_OFF..]);
+        push(&format!("{tag}-all-but-mu"), format!("a_tilde and eta from the {tag} message, own mu_hash"), m);
+        if off > 0 {
+            let mut m = msg.clone();
+            m[..off].copy_from_slice(&om[..off]);
+            push(&format!("{tag}-ot-replies"), format!("both base-OT replies spliced from the {tag} message"), m);
+            let mut m = msg.clone();
+            m[..EOT_BYTES].copy_from_slice(&om[..EOT_BYTES]);
+            push(&format!("{tag}-ot-reply-a"), format!("base-OT reply a spliced from the {tag} message"), m);
+        }
+    }
+    if off > 0 {
+        // base-OT replies: swap the two replies; replace a point on the side the receiver does NOT read / DOES read
+        let mut m = msg.clone();
+        for k in 0..EOT_BYTES { m.swap(k, EOT_BYTES + k); }
+        push("ot-replies-swapped", "ot_msg2_a and ot_msg2_b swapped".into(), m);
+        for inst in [0usize, 255, 256, 511] {
+            let c = bit(&beta, inst);
+            let base = (inst / 256) * EOT_BYTES + (inst % 256) * 66;
+            let donor = ((inst + 7) % 256) * 66 + (inst / 256) * EOT_BYTES;
+            for side_read in [false, true] {
+                let side = if side_read { c as usize } else { 1 - c as usize };
+                let mut m = msg.clone();
+                let p: Vec<u8> = msg[donor..donor + 33].to_vec();
+                m[base + side * 33..base + side * 33 + 33].copy_from_slice(&p);
+                push(if side_read { "ot-point-read-side" } else { "ot-point-unread-side" },
+                     format!("instance {inst}: point on the side the receiver {} replaced by another valid point", if side_read { "reads" } else { "does not read" }), m);
+            }
+            let mut m = msg.clone();
+            m[base + (c as usize) * 33..base + (c as usize) * 33 + 33].fill(0xff);
+            push("ot-point-undecodable", format!("instance {inst}: read-side point made undecodable"), m);
+        }
+    }
+    v
+}
+
+/// verdict of a probe against the property: Err, or relation intact with the honest c; never a panic
+fn judge_transit(s: &Sess, p: &Probe, res: &Result<[Scalar; 2], String>, rep: &mut Report) {
+    let (_, c) = s.honest();
+    match res {
+        Ok(d) => {
+            if !relation_holds(&s.a(), &s.b(), &c, d) {
+                rep.oracle.push(format!("corrupted message accepted with wrong shares: {} ({}) d={} -- {}", p.what, p.kind, scalars(d), s.describe()));
+            }
+            rep.kind(&format!("{}:{}:accepted-relation-intact", s.variant(), p.kind));
+        }
+        Err(e) if e == "panic" => rep.oracle.push(format!("receiver panicked on a corrupted message: {} ({}) -- {}", p.what, p.kind, s.describe())),
+        Err(e) => rep.kind(&format!("{}:{}:{e}", s.variant(), p.kind)),
+    }
+}
+
+/// deterministic expectations for some probe kinds (beyond "Err or intact")
+fn judge_expected(s: &Sess, p: &Probe, res: &Result<[Scalar; 2], String>, rep: &mut Report) {
+    let expect_err = p.kind == "bit-mu_hash" || p.kind == "field-mu-zero" || p.kind == "ot-point-undecodable";
+    if expect_err && res.is_ok() {
+        rep.oracle.push(format!("{} must be rejected unconditionally but was accepted: {} -- {}", p.kind, p.what, s.describe()));
+    }
+    if p.kind == "ot-point-unread-side" && res.is_err() {
+        rep.oracle.push(format!("a change confined to the unread side of a base-OT reply was rejected ({:?}): {} -- {}", res, p.what, s.describe()));
+    }
+}
+
+// ------------------------------------------------------------------------------------------------
+// calibrated deviations
+
+fn deviation_specs(s: &Sess, r: &mut impl RngCore, n: usize) -> Vec<(String, Vec<Dev>)> {
+    let beta = s.beta();
+    let a = s.a();
+    let mut v = vec![];
+    let positions = [0usize, 1, 255, 256, XI - 1];
+    for k in 0..n {
+        let npos = 1 + (k % 3);
+        let mut spec: Vec<Dev> = vec![];
+        for t in 0..npos {
+            let j = if k % 2 == 0 && t == 0 { positions[(k / 2) % positions.len()] } else { (r.next_u32() as usize) % XI };
+            if spec.iter().any(|d| d.j == j) {
+                continue;
+            }
+            let repl = match (k / 3) % 4 {
+                0 => [a[0] + Scalar::ONE, a[1]],
+                1 => [Scalar::ZERO, Scalar::ZERO],
+                2 => [a[0], -a[1] - Scalar::ONE],
+                _ => [reduce32(&r.gen::<[u8; 32]>()), reduce32(&r.gen::<[u8; 32]>())],
+            };
+            // guesses: all right / first wrong / all wrong / alternating
+            let right = bit(&beta, j);
+            let g = match (k / 12) % 4 {
+                0 => right,
+                1 => if t == 0 { !right } else { right },
+                2 => !right,
+                _ => if (k + t) % 2 == 0 { right } else { !right },
+            };
+            spec.push(Dev { j, a: repl, g });
+        }
+        let name = format!("dev{k}:{}", spec.iter().map(|d| format!("j{}b{}g{}", d.j, bit(&beta, d.j) as u8, d.g as u8)).collect::<Vec<_>>().join("+"));
+        v.push((name, spec));
+    }
+    v
+}
+
+struct AdvCtx {
+    v0: Rows,
+    v1: Rows,
+    gv: Vec<Scalar>,
+    honest_d: [Scalar; 2],
+}
+
+fn run_deviation(s: &Sess, ctx: &AdvCtx, name: &str, spec: &[Dev], rep: &mut Report) -> Vec<u8> {
+    let sid = s.sid();
+    let a = s.a();
+    let beta = s.beta();
+    let (honest_msg, c) = s.honest();
+    let (tail, th) = adversary(&sid, &ctx.v0, &ctx.v1, &a, &s.eta_tape(), spec);
+    let mut msg = honest_msg[..s.off()].to_vec();
+    msg.extend_from_slice(&tail);
+    let res = s.real_recv(&msg);
+    rep.n_eval += 1;
+    rep.n_nontrivial += 1;
+    let tdelta = |d: &Dev| th[0] * (d.a[0] - a[0]) + th[1] * (d.a[1] - a[1]);
+    let degenerate = spec.iter().any(|d| bool::from(tdelta(d).is_zero()));
+    let all_right = spec.iter().all(|d| d.g == bit(&beta, d.j));
+    let tag = format!("{} {} spec={}", name, s.describe(), spec_arg(spec));
+    match &res {
+        Err(e) if e == "panic" => rep.oracle.push(format!("receiver panicked on the adversary's message -- {tag}")),
+        Err(_) => {
+            if all_right {
+                rep.oracle.push(format!("self-consistent message with every guess right was rejected -- {tag}"));
+            }
+            rep.kind(&format!("{}:adv:{}:rejected", s.variant(), if all_right { "all-right" } else { "some-wrong" }));
+        }
+        Ok(d) => {
+            if !all_right && !degenerate {
+                rep.oracle.push(format!("adversary accepted although a guess is wrong (theta'.Delta != 0) -- {tag}"));
+            }
+            // accepted shares: d' = d + sum_j beta_j * g_j * Delta_j ; zero bits leave them unaffected
+            let mut pred = ctx.honest_d;
+            for dv in spec {
+                if bit(&beta, dv.j) {
+                    for i in 0..2 {
+                        pred[i] += ctx.gv[dv.j] * (dv.a[i] - a[i]);
+                    }
+                }
+            }
+            if *d != pred {
+                rep.oracle.push(format!("accepted shares differ from d + sum_(beta_j=1) g_j*Delta_j (a zero bit must leave them unaffected): d'={} predicted={} -- {tag}", scalars(d), scalars(&pred)));
+            }
+            if spec.iter().all(|dv| !bit(&beta, dv.j)) && !relation_holds(&a, &s.b(), &c, d) {
+                rep.oracle.push(format!("all attacked bits are zero but c + d != a*b -- {tag}"));
+            }
+            rep.kind(&format!("{}:adv:{}:accepted", s.variant(), if spec.iter().all(|dv| !bit(&beta, dv.j)) { "zero-bits" } else { "one-bits" }));
+        }
+    }
+    msg
+}
+
+// ------------------------------------------------------------------------------------------------
+
+fn variant_run(seed: u64, ot: bool, thorough: bool, threads: usize, rep: &mut Report, log: &mut Vec<String>) -> u64 {
+    let vname = if ot { "ot" } else { "ext" };
+    let mut r = rng(seed, &format!("c02-{vname}"));
+    let sid: [u8; 32] = r.gen();
+    let sid2: [u8; 32] = r.gen();
+    let (s, other_session, other_run) = if ot {
+        (ot_sess(seed, "main", sid, 4), ot_sess(seed, "other-session", sid2, 4), ot_sess(seed, "other-run", sid, 1))
+    } else {
+        (ext_sess(seed, "main", sid, "c02-seeds", 4), ext_sess(seed, "other-session", sid2, "c02-seeds-2", 4), ext_sess(seed, "other-run", sid, "c02-seeds", 1))
+    };
+    let (honest_msg, c) = s.honest();
+    let beta = s.beta();
+    if beta.iter().all(|x| *x == 0) || beta.len() != 64 {
+        rep.oracle.push(format!("receiver state bytes 32..96 do not look like beta -- {}", s.describe()));
+    }
+    // honest message accepted, relation holds
+    let honest = s.real_recv(&honest_msg);
+    rep.n_eval += 1;
+    let honest_d = match &honest {
+        Ok(d) => {
+            if !relation_holds(&s.a(), &s.b(), &c, d) {
+                rep.oracle.push(format!("honest run: c + d != a*b -- {}", s.describe()));
+            }
+            *d
+        }
+        Err(e) => {
+            rep.oracle.push(format!("honest round-two message not accepted ({e}) -- {}", s.describe()));
+            [Scalar::ZERO; 2]
+        }
+    };
+    log.push(format!("{} honest={}", s.describe(), real_recv_str(&honest)));
+
+    // ---- fault enumeration against the real receiver
+    let mut probes = field_bit_flips(&s, &mut r, 64);
+    probes.extend(substitutions(&s, &other_session, &other_run, &mut r));
+    let mut sample: Vec<usize> = vec![];
+    let mut seen = std::collections::BTreeSet::new();
+    for (i, p) in probes.iter().enumerate() {
+        let res = s.real_recv(&p.msg);
+        rep.n_eval += 1;
+        rep.n_nontrivial += 1;
+        judge_transit(&s, p, &res, rep);
+        judge_expected(&s, p, &res, rep);
+        log.push(format!("{vname} probe {} [{}] -> {}", p.what, p.kind, real_recv_str(&res)));
+        if seen.insert(p.kind.clone()) {
+            sample.push(i);
+        }
+    }
+    // thorough: exhaustive / strided single-bit sweep (in-harness oracle only), in parallel
+    if thorough {
+        let total_bits = honest_msg.len() * 8;
+        let off_bits = s.off() * 8;
+        let positions: Vec<usize> = (0..total_bits)
+            .filter(|b| !ot || *b >= off_bits + AT_BYTES * 8 || (*b < off_bits && b % 64 == (seed as usize) % 64) || (*b >= off_bits && b % 16 == (seed as usize) % 16))
+            .collect();
+        let chunk = (positions.len() + threads - 1) / threads.max(1);
+        let results: Vec<(u64, u64, Vec<String>)> = std::thread::scope(|sc| {
+            let hs: Vec<_> = positions
+                .chunks(chunk.max(1))
+                .map(|ch| {
+                    let s = &s;
+                    let honest_msg = &honest_msg;
+                    let c = &c;
+                    sc.spawn(move || {
+                        let mut m = honest_msg.clone();
+                        let (mut rejected, mut accepted, mut bad) = (0u64, 0u64, vec![]);
+                        for &bp in ch {
+                            m[bp / 8] ^= 1 << (bp % 8);
+                            match s.real_recv(&m) {
+                                Ok(d) => {
+                                    accepted += 1;
+                                    if !relation_holds(&s.a(), &s.b(), c, &d) || bp >= (s.off() + MU_OFF) * 8 {
+                                        bad.push(format!("bit {bp} flipped: accepted with d={}", scalars(&d)));
+                                    }
+                                }
+                                Err(e) if e == "panic" => bad.push(format!("bit {bp} flipped: receiver panicked")),
+                                Err(_) => rejected += 1,
+                            }
+                            m[bp / 8] ^= 1 << (bp % 8);
+                        }
+                        (rejected, accepted, bad)
+                    })
+                })
+                .collect();
+            hs.into_iter().map(|h| h.join().unwrap()).collect()
+        });
+        for (rej, acc, bad) in results {
+            rep.n_eval += rej + acc;
+            rep.n_nontrivial += rej + acc;
+            *rep.kinds.entry(format!("{vname}:bit-sweep:rejected")).or_default() += rej;
+            *rep.kinds.entry(format!("{vname}:bit-sweep:accepted-relation-intact")).or_default() += acc;
+            for b in bad {
+                rep.oracle.push(format!("single-bit sweep: {b} -- {}", s.describe()));
+            }
+        }
+        log.push(format!("{vname} single-bit sweep over {} positions", positions.len()));
+    }
+
+    // ---- calibrated deviations against the real receiver
+    let (v0, v1) = s.sender_rows();
+    let ctx = AdvCtx { v0, v1, gv: gadget_vec(&s.sid()), honest_d };
+    // sanity of the harness adversary: no deviation = the honest message, byte for byte
+    let (tail, _) = adversary(&s.sid(), &ctx.v0, &ctx.v1, &s.a(), &s.eta_tape(), &[]);
+    if tail[..] != honest_msg[s.off()..] {
+        rep.disagree.push(format!("harness adversary with an empty specification differs from the honest sender's message -- {}", s.describe()));
+    }
+    let n_dev = if thorough { if ot { 600 } else { 1500 } } else { 48 };
+    let specs = deviation_specs(&s, &mut r, n_dev);
+    let mut adv_msgs: Vec<(usize, Vec<u8>)> = vec![];
+    for (i, (name, spec)) in specs.iter().enumerate() {
+        let m = run_deviation(&s, &ctx, name, spec, rep);
+        if i < 3 || (i % 12 == 0 && adv_msgs.len() < if thorough { 12 } else { 5 }) {
+            adv_msgs.push((i, m));
+        }
+    }
+
+    // ---- the extracted model on a sample: same verdicts (and shares), byte-identical adversary
+    let n_model = if thorough { sample.len() } else { sample.len().min(if ot { 10 } else { 14 }) };
+    let sample: Vec<usize> = sample.into_iter().take(n_model).collect();
+    let mut jobs: Vec<Box<dyn Fn(&mut Model, &mut Report, &mut Vec<String>) + Send + Sync + '_>> = vec![];
+    let sref = &s;
+    let probes_ref = &probes;
+    let specs_ref = &specs;
+    let honest_ref = &honest_msg;
+    // jobs share the session; each worker registers the model's own receiver state once
+    let ensure = move |m: &mut Model, rep: &mut Report| -> bool {
+        let id = format!("c02-{vname}");
+        match m.call("c01.has", &[id.clone()]) {
+            Ok(r) if r.first().map(|x| x.as_str()) == Some("1") => true,
+            _ => match sref.model_new(m, &id) {
+                Ok(()) => true,
+                Err(e) => {
+                    rep.disagree.push(format!("model new failed: {e} -- {}", sref.describe()));
+                    false
+                }
+            },
+        }
+    };
+    let check = move |m: &mut Model, rep: &mut Report, what: &str, msg: &[u8]| {
+        let id = format!("c02-{vname}");
+        let real = real_recv_str(&sref.real_recv(msg));
+        match sref.model_recv(m, &id, msg) {
+            Ok(mv) => {
+                rep.n_eval += 1;
+                if mv != real {
+                    rep.disagree.push(format!("receiver verdict on [{what}]: impl {real} model {mv} -- {}", sref.describe()));
+                } else if rep.samples.len() < 2 {
+                    rep.samples.push(format!("{vname}: [{what}] -> impl = model = {}", real.chars().take(100).collect::<String>()));
+                }
+            }
+            Err(e) => rep.disagree.push(format!("model receiver failed on [{what}]: {e} -- {}", sref.describe())),
+        }
+    };
+    jobs.push(Box::new(move |m, rep, _| {
+        if ensure(m, rep) {
+            check(m, rep, "honest message", honest_ref);
+        }
+    }));
+    for i in sample {
+        jobs.push(Box::new(move |m, rep, _| {
+            if ensure(m, rep) {
+                let p = &probes_ref[i];
+                check(m, rep, &format!("{}: {}", p.kind, p.what), &p.msg);
+            }
+        }));
+    }
+    for (i, msg) in adv_msgs {
+        jobs.push(Box::new(move |m, rep, _| {
+            let (name, spec) = &specs_ref[i];
+            match sref.model_adv(m, spec) {
+                Ok(mm) => {
+                    rep.n_eval += 1;
+                    if mm != msg {
+                        rep.disagree.push(format!("adv_sender {name}: the model's message differs from the harness adversary's ({} vs {} bytes) spec={} -- {}",
+                            mm.len(), msg.len(), spec_arg(spec), sref.describe()));
+                    }
+                }
+                Err(e) => rep.disagree.push(format!("adv_sender {name}: model failed: {e} -- {}", sref.describe())),
+            }
+            if ensure(m, rep) {
+                check(m, rep, &format!("calibrated deviation {name}"), &msg);
+            }
+        }));
+    }
+    let (r2, l2, q) = run_parallel(jobs, threads);
+    rep.merge(r2);
+    log.extend(l2);
+    q
+}
+
+pub fn run(kv: &Args) -> i32 {
+    let seed = kv.u64("seed", 1);
+    let out = kv.str("out", "/verif/build/run/C02");
+    std::fs::create_dir_all(&out).unwrap();
+    let threads = n_threads(kv);
+    let mut rep = Report::new();
+    let mut log = vec![];
+    let mut queries = 0;
+    // `only=ext|ot` re-runs one variant; `replay=<file>` picks the variant named in the ORACLE / DISAGREE text
+    // (all probes of a variant derive from `seed`, so the run reproduces the reported input).
+    let mut only = kv.get("only").map(|s| s.to_string());
+    if let Some(path) = kv.get("replay") {
+        if let Ok(txt) = std::fs::read_to_string(path) {
+            if txt.contains("variant=ot") {
+                only = Some("ot".into());
+            } else if txt.contains("variant=ext") {
+                only = Some("ext".into());
+            }
+        }
+    }
+    let only = only.as_deref();
+    if only.map_or(true, |o| o == "ext") {
+        queries += variant_run(seed, false, kv.thorough(), threads, &mut rep, &mut log);
+    }
+    if only.map_or(true, |o| o == "ot") {
+        queries += variant_run(seed, true, kv.thorough(), threads, &mut rep, &mut log);
+    }
+    rep.samples.truncate(6);
+    std::fs::write(format!("{out}/cases.txt"), log.join("\n") + "\n").unwrap();
+    rep.write(&out, queries);
+    0
 }
